@@ -10,7 +10,7 @@ import (
 	"go/token"
 )
 
-func constMap(rel string) map[string]int64 {
+func clConstMap(rel string) map[string]int64 {
 	m := map[string]int64{}
 	for _, c := range intConsts(parseFile(rel)) {
 		m[c.Name] = c.Val
@@ -20,7 +20,7 @@ func constMap(rel string) map[string]int64 {
 
 func init() {
 	registerEmitter("ResolveTables", func() {
-		api := constMap("api/v3/api.pb.go")
+		api := clConstMap("api/v3/api.pb.go")
 		rf := parseFile("util/resolve/resolve.go")
 		// NPM = System(apipb.System_NPM) etc.
 		sys := map[string]int64{}
@@ -50,19 +50,19 @@ func init() {
 			must(ok, "util/resolve/resolve.go: system "+n)
 			fmt.Fprintf(&out, "Definition sys_%s : N := %d.\n", map[string]string{"NPM": "npm", "Maven": "maven", "PyPI": "pypi"}[n], v)
 		}
-		rc := constMap("util/resolve/resolve.go")
+		rc := clConstMap("util/resolve/resolve.go")
 		for _, n := range []string{"Concrete", "Requirement"} {
 			v, ok := rc[n]
 			must(ok, "util/resolve/resolve.go: "+n)
 			fmt.Fprintf(&out, "Definition vt_%s : N := %d.\n", map[string]string{"Concrete": "concrete", "Requirement": "requirement"}[n], v)
 		}
-		vk := constMap("util/resolve/version/key.go")
+		vk := clConstMap("util/resolve/version/key.go")
 		for _, n := range []string{"Deleted", "Tags"} {
 			v, ok := vk[n]
 			must(ok, "util/resolve/version/key.go: "+n)
 			fmt.Fprintf(&out, "Definition ver_%s : Z := %s.\n", map[string]string{"Deleted": "deleted", "Tags": "tags"}[n], coqZ(v))
 		}
-		dk := constMap("util/resolve/dep/key.go")
+		dk := clConstMap("util/resolve/dep/key.go")
 		for _, n := range []string{"Dev", "KnownAs"} {
 			v, ok := dk[n]
 			must(ok, "util/resolve/dep/key.go: "+n)
